@@ -28,7 +28,7 @@ def main():
     if a.replay:
         rp = json.load(open(a.replay))
         pin = {k: int(v) for k, v in rp.get("pin", {}).items()}
-        only = [rp["obligation"]]
+        only = [rp["obligation"].split("#")[0]]
     mod = importlib.import_module("vf.props." + a.pid)
     R = core.Run(a.pid, tier, seed, only=only, pin=pin)
     try:
